@@ -13,6 +13,8 @@ use stun_rs::*;
 
 pub const ALPHABET: &[&str] = &[
     "a", "Z", "0", " ", "\t", "\"", "\\", ":", "\u{e9}", "\u{a0}", "\u{fd}", "\u{80}", "\u{301}", "\u{1f642}", "\u{c3}",
+    // characters with a meaning in the encodings the value types parse (base64 padding and its two specials)
+    "=", "+", "/",
 ];
 
 fn sclass(s: &str) -> String {
@@ -43,7 +45,7 @@ fn np<T>(api: &str, input_class: &str, input: &dyn Fn() -> serde_json::Value, re
     }
 }
 
-fn strings_upto3() -> Vec<String> {
+fn strings_upto3(four: bool) -> Vec<String> {
     let mut v = vec![String::new()];
     for a in ALPHABET {
         v.push(a.to_string());
@@ -51,6 +53,14 @@ fn strings_upto3() -> Vec<String> {
             v.push(format!("{}{}", a, b));
             for c in ALPHABET {
                 v.push(format!("{}{}{}", a, b, c));
+                for d in ALPHABET {
+                    v.push(format!("{}{}{}{}", a, b, c, d));
+                    if four {
+                        for e in ALPHABET {
+                            v.push(format!("{}{}{}{}{}", a, b, c, d, e));
+                        }
+                    }
+                }
             }
         }
     }
@@ -577,7 +587,7 @@ fn clone_sequences(rep: &mut Report) {
 pub fn run(ctx: &RunCtx) -> i32 {
     let thorough = ctx.thorough();
     let shared = Shared::new();
-    let strs = strings_upto3();
+    let strs = strings_upto3(thorough);
     let apis = [
         "UserName::new",
         "Realm::new",
@@ -686,12 +696,12 @@ pub fn run(ctx: &RunCtx) -> i32 {
         rep,
         Finish {
             level: "exploration",
-            rule: format!("{} strings (every string of length <=3 over a {}-symbol alphabet incl. quotes, backslash, TAB, 2-/3-/4-byte and combining characters, plus lengths 507..510 and 762..764) through every string-taking constructor / conversion (UserName, Realm, Nonce, Nonce::new_nonce_cookie x 4 flag sets, Software, Padding, ErrorCode x 7 codes, UserHash, HMACKey short- and long-term x 3 positions x 4 algorithms) and the accessors of every value built; every nonce 'obMatJos2' + 4 alphabet symbols + {} suffixes through is_nonce_cookie / security_features; every u16 through MessageType/MessageMethod/AttributeType/AlgorithmId/ErrorCode/IcmpCode conversions, every u8 through MessageClass/AddressFamily/IcmpType; every attribute of the menu (and decoded Unknown / integrity / fingerprint forms) through all 39 is_/as_ accessors, the matching expect_, attribute_type, Debug, Clone; build(k<=3).clone.mutate-either(j<=2).read-both for PasswordAlgorithms (2 construction routes), UnknownAttributes and the agent's StunAttributes against a Vec model. Non-trivial = distinct input for which a value was actually constructed and exercised", n_str, ALPHABET.len(), suffixes.len()),
+            rule: format!("{} strings (every string of length <=4 (thorough: <=5) over a {}-symbol alphabet incl. quotes, backslash, TAB, 2-/3-/4-byte and combining characters, plus lengths 507..510 and 762..764) through every string-taking constructor / conversion (UserName, Realm, Nonce, Nonce::new_nonce_cookie x 4 flag sets, Software, Padding, ErrorCode x 7 codes, UserHash, HMACKey short- and long-term x 3 positions x 4 algorithms) and the accessors of every value built; every nonce 'obMatJos2' + 4 alphabet symbols + {} suffixes through is_nonce_cookie / security_features; every u16 through MessageType/MessageMethod/AttributeType/AlgorithmId/ErrorCode/IcmpCode conversions, every u8 through MessageClass/AddressFamily/IcmpType; every attribute of the menu (and decoded Unknown / integrity / fingerprint forms) through all 39 is_/as_ accessors, the matching expect_, attribute_type, Debug, Clone; build(k<=3).clone.mutate-either(j<=2).read-both for PasswordAlgorithms (2 construction routes), UnknownAttributes and the agent's StunAttributes against a Vec model. Non-trivial = distinct input for which a value was actually constructed and exercised", n_str, ALPHABET.len(), suffixes.len()),
             assumptions: vec!["the documented expect_* panic on a type mismatch is not exercised".into()],
             required_symbols: vec!["string-constructors", "cookie-nonces", "scalar-sweeps", "attribute-accessors", "clone-sequences", "cookie-flags-roundtrip", "extra-api"],
             min_outcomes: 2,
             exhaustive: true,
-            bounds: json!({"alphabet": ALPHABET.len(), "max_len": 3, "strings": n_str}),
+            bounds: json!({"alphabet": ALPHABET.len(), "max_len": if thorough { 5 } else { 4 }, "strings": n_str}),
         },
     )
 }
